@@ -613,11 +613,45 @@ def _check_nan_both(ctx, tst):
         return [c for c in ast.walk(expr) if isinstance(c, ast.Call) and
                 call_name(c) == 'isnan' and c.args]
 
+    # masks bound to a local name first (`both = isnan(a) & isnan(b)`) are
+    # read through the name
+    import copy
+    mask_defs = {}
+    for node in walk_local(meth.node):
+        if isinstance(node, ast.Assign) and len(node.targets) == 1 and \
+                isinstance(node.targets[0], ast.Name):
+            mask_defs.setdefault(node.targets[0].id, []).append(node.value)
+    mask_defs = {k: v[0] for k, v in mask_defs.items()
+                 if len(v) == 1 and isnan_atoms(v[0])}
+
+    def inline(expr, depth=0):
+        class Sub(ast.NodeTransformer):
+            def visit_Name(self, node):
+                if node.id in mask_defs and depth < 4:
+                    return inline(copy.deepcopy(mask_defs[node.id]),
+                                  depth + 1)
+                return node
+        return Sub().visit(copy.deepcopy(expr))
+
+    def split_or(expr):
+        if isinstance(expr, ast.BoolOp) and isinstance(expr.op, ast.Or):
+            return [d for v in expr.values for d in split_or(v)]
+        if isinstance(expr, ast.BinOp) and isinstance(expr.op, ast.BitOr):
+            return split_or(expr.left) + split_or(expr.right)
+        if isinstance(expr, ast.Call) and call_name(expr) == 'logical_or' \
+                and len(expr.args) == 2:
+            return split_or(expr.args[0]) + split_or(expr.args[1])
+        return [expr]
+
     def judge(cond, where, what):
+        cond = inline(cond)
+        for disj in split_or(cond):
+            if isnan_atoms(disj):
+                judge_one(disj, where, what)
+
+    def judge_one(cond, where, what):
         atoms = isnan_atoms(cond)
-        if not atoms:
-            return
-        # disjunctions anywhere between nan atoms are recognised-wrong
+        # disjunctions below a conjunction are recognised-wrong
         has_or = any((isinstance(n, ast.BoolOp) and isinstance(n.op, ast.Or))
                      or (isinstance(n, ast.BinOp) and
                          isinstance(n.op, ast.BitOr)) or
@@ -626,9 +660,10 @@ def _check_nan_both(ctx, tst):
         by_field = {}
         for atom in atoms:
             arg = atom.args[0]
-            if isinstance(arg, ast.Attribute):
+            if isinstance(arg, ast.Attribute) and txt(arg.value) in params:
                 by_field.setdefault(arg.attr, set()).add(txt(arg.value))
-        ok = True
+        # isnan(<derived value>) alone is true as soon as ONE side is NaN
+        ok = bool(by_field)
         for field, bases in by_field.items():
             both = len([b for b in bases if b in params]) >= 2
             if not both:
@@ -639,19 +674,20 @@ def _check_nan_both(ctx, tst):
                    at=where,
                    detail='a passing constant may replace the statistic only '
                           'when BOTH datasets are undefined for the same '
-                          'field: NaN on one side only must fail')
+                          'field: NaN on one side only (or NaN of a value '
+                          'derived from both) must fail')
 
     for node in walk_local(meth.node):
         if isinstance(node, ast.Assign) and len(node.targets) == 1 and \
                 isinstance(node.targets[0], ast.Subscript) and \
                 isinstance(node.value, ast.Constant):
             cond = node.targets[0].slice
-            if isnan_atoms(cond):
+            if isnan_atoms(inline(cond)):
                 n += 1
                 judge(cond, meth.where(node),
                       f'store of constant {txt(node.value)}')
-        if isinstance(node, ast.If) and isnan_atoms(node.test) and any(
-                isinstance(s, ast.Return) for s in node.body):
+        if isinstance(node, ast.If) and isnan_atoms(inline(node.test)) and \
+                any(isinstance(s, ast.Return) for s in node.body):
             n += 1
             judge(node.test, meth.where(node), 'early return of a passing '
                   'constant')
@@ -845,6 +881,19 @@ def check_bonferroni(ctx):
             rl = V.mentions(right, lder - (pder - lder))
             if (lp and rl) or (rp and ll):
                 cmps.append(cmp_expr)
+        # the definitions compare p-values and levels EXACTLY
+        for node in ast.walk(meth.node):
+            if isinstance(node, ast.Call) and call_name(node) in \
+                    TOLERANCE_CALLS and (V.mentions(node, pder) or
+                                         V.mentions(node, lder)):
+                ctx.violated(
+                    'VERD-TABLE', meth,
+                    f'{meth.name}: p-values compared to the level with a '
+                    f'tolerance: {txt(node)[:60]}', at=meth.where(node),
+                    detail='a bin whose p-value is above the level by less '
+                           'than the tolerance (absolute 1e-8 by default: '
+                           'every small p-value of a large mesh) is flagged '
+                           'although the definition accepts it')
         if not cmps:
             ctx.undecided('VERD-TABLE', meth, 'no p-value vs level '
                           'comparison found', at=meth.where())
@@ -918,6 +967,56 @@ def check_bonferroni(ctx):
                                    'no bin is flagged: not any(rejected)'})
     ctx.floor('VERD-AGG', n_agg, 4, '__bool__/oracles of the two result '
               'classes')
+
+
+def _check_summand_source(ctx, program, chi):
+    '''SUMMAND-SRC: when the per-bin term of the chi-square is taken from
+    another function of the repository, that function must not replace
+    undefined bins by a constant (the Student statistic does: 0/0 and NaN on
+    both sides become 0): "when no bin is left out an undefined statistic
+    never passes".'''
+    defs = {}
+    for node in walk_local(chi.node):
+        if isinstance(node, ast.Assign) and len(node.targets) == 1 and \
+                isinstance(node.targets[0], ast.Name):
+            defs.setdefault(node.targets[0].id, []).append(node.value)
+    seen = []
+    for ret in _returns(chi):
+        exprs = [ret.value]
+        for sub in ast.walk(ret.value):
+            if isinstance(sub, ast.Name) and len(defs.get(sub.id, [])) == 1:
+                exprs.append(defs[sub.id][0])
+        for expr in exprs:
+            for call in ast.walk(expr):
+                if not isinstance(call, ast.Call) or call in seen:
+                    continue
+                seen.append(call)
+                cands, _ = program.resolve_call(chi, call)
+                for cand in cands:
+                    if not cand.module.name.startswith('valjean.gavroche'):
+                        continue
+                    fixups = [n for n in walk_local(cand.node) if (
+                        isinstance(n, ast.Assign) and isinstance(
+                            n.targets[0], ast.Subscript) and isinstance(
+                                n.value, ast.Constant)) or (
+                        isinstance(n, ast.If) and any(
+                            isinstance(r, ast.Return) and r.value is not None
+                            and (isinstance(r.value, ast.Constant) or (
+                                isinstance(r.value, ast.Call) and call_name(
+                                    r.value) in ('zeros_like', 'zeros')))
+                            for r in n.body))]
+                    ctx.decide(
+                        'SUMMAND-SRC', chi,
+                        f'term of the sum taken from {cand.name}() '
+                        f'({len(fixups)} bins-replaced-by-a-constant sites)',
+                        not fixups, at=chi.where(call),
+                        detail=f'{cand.name} replaces undefined bins by a '
+                               f'constant ({txt(fixups[0])[:60]}): they add '
+                               f'0 to the sum, stay in the degrees of '
+                               f'freedom, and an undefined statistic passes'
+                        if fixups else None)
+    if not seen:
+        return
 
 
 def _sorted_enumeration(meth, pder):
@@ -1044,6 +1143,42 @@ def _check_unsort(ctx, meth, pname):
                                 node.targets[0].value) == inner.id and \
                             txt(node.targets[0].slice) in sorted_inds:
                         ok = True
+                # out.flat[sorted_inds] = X / out.ravel()[sorted_inds] = X
+                # on an array created with the shape of the input
+                creation = [n.value for n in walk_local(meth.node)
+                            if isinstance(n, ast.Assign) and txt(
+                                n.targets[0]) == inner.id and isinstance(
+                                    n.value, ast.Call)]
+                cname = call_name(creation[0]) if len(creation) == 1 else ''
+                shaped = cname in ('zeros', 'empty', 'ones', 'full') and \
+                    creation[0].args and txt(creation[0].args[0]) == \
+                    f'{pname}.shape' and not any(
+                        k.arg == 'order' for k in creation[0].keywords)
+                like = cname in ('zeros_like', 'empty_like', 'ones_like',
+                                 'full_like') and creation[0].args and txt(
+                                     creation[0].args[0]) == pname
+                for node in walk_local(meth.node):
+                    if not (isinstance(node, ast.Assign) and isinstance(
+                            node.targets[0], ast.Subscript) and txt(
+                                node.targets[0].slice) in sorted_inds):
+                        continue
+                    base = node.targets[0].value
+                    if isinstance(base, ast.Attribute) and base.attr == \
+                            'flat' and txt(base.value) == inner.id and (
+                                shaped or like):
+                        ok, reshaped = True, True
+                    elif isinstance(base, ast.Call) and call_name(base) in (
+                            'ravel', 'reshape') and txt(receiver(
+                                base)) == inner.id:
+                        if shaped:
+                            ok, reshaped = True, True
+                        elif like:
+                            ok = False
+                            why = (f'{txt(base)} of an array that has the '
+                                   f'memory layout of the input is a COPY '
+                                   f'when the input is not C-contiguous '
+                                   f'(transposed, Fortran order): the '
+                                   f'results written through it are lost')
             if ok is True and not reshaped:
                 ok = False
                 why = 'not reshaped to the shape of the input'
@@ -1175,6 +1310,8 @@ def check_chi2(ctx):
                            (False if not erased else None),
                            at=chi.where(call))
     ctx.floor('SIGN-ERASE', n_sq, 1, 'sum in chi2_test')
+    if chi is not None:
+        _check_summand_source(ctx, program, chi)
     # SAME-SOURCE: ndf and the mask derive from one definition
     init = tst.methods.get('__init__')
     ev = tst.methods.get('evaluate')
